@@ -92,7 +92,9 @@ type ScriptCfg struct {
 	KeyOverride map[string]string `json:"keyOverride,omitempty"`
 	// SharedEnv: the gateway runs with the home and temporary directories that every other gateway of this run with the
 	// same SharedEnv value uses (several gateways on one machine); without it each gateway has directories of its own
-	SharedEnv string `json:"sharedEnv,omitempty"` // name of the machine: gateways with the same name share the directories
+	SharedEnv string `json:"sharedEnv,omitempty"`
+	// AuthAway: the authentication service the gateway is configured to talk to is not there (stopped, restarting)
+	AuthAway bool `json:"authAway,omitempty"` // name of the machine: gateways with the same name share the directories
 }
 
 func (c ScriptCfg) Key() string {
@@ -456,7 +458,9 @@ func (r *Runner) NewInst(cfg ScriptCfg) (*Inst, error) {
 			in.IdP = idp
 			c.ProviderUrl, c.ClientId, c.ClientSecret = idp.URL, idp.ClientID, idp.Secret
 		case "ntlm", "local":
-			if in.Auth == nil {
+			if cfg.AuthAway {
+				c.AuthSocket = filepath.Join(r.Work, "nobody-listens-here.sock")
+			} else if in.Auth == nil {
 				ap, err := r.StartAuth(in.Users)
 				if err != nil {
 					return nil, err
